@@ -122,6 +122,16 @@ func (e *Engine) finishPath(st *State) {
 	if e.verbose {
 		fmt.Fprintf(os.Stderr, "path %d: %s (steps %d, pc %d)\n", e.paths, o, st.steps, len(st.pc))
 	}
+	if o == "return" && len(e.agree) < e.agreeMax && !st.threadMode && (e.paths%7 == 1 || e.paths <= 2) {
+		if r := e.solver.Check(st.pc, nil); r == "sat" {
+			vals := e.solver.Values(st.vars)
+			a := AgreeSample{Harness: e.harness, Tier: e.tier, Reach: append([]string(nil), st.reachSeq...)}
+			for _, hi := range st.hvars {
+				a.Values = append(a.Values, vals[hi])
+			}
+			e.agree = append(e.agree, a)
+		}
+	}
 	if len(e.samples) < 3 && (o == "return") && len(st.pc) > 0 {
 		var cs []string
 		for i, c := range st.pc {
@@ -221,11 +231,23 @@ type HarnessResult struct {
 	Funcs      []string       `json:"-"`
 	Viol       []Violation    `json:"-"`
 	Samples    []string       `json:"-"`
+	Agree      []AgreeSample  `json:"-"`
 	TimedOut   bool           `json:"timed_out"`
 	SolverErr  string         `json:"solver_err,omitempty"`
 }
 
+// AgreeSample is one explored path turned into concrete inputs: replayed
+// natively it must end the same way and witness the same reach labels in the
+// same order (translator validation, DESIGN.md 13).
+type AgreeSample struct {
+	Harness string   `json:"harness"`
+	Values  []uint64 `json:"values"`
+	Tier    int      `json:"tier"`
+	Reach   []string `json:"reach"`
+}
+
 type RunOpts struct {
+	Agree     int
 	Workers   int
 	MaxSteps  int
 	Tier      int
@@ -253,7 +275,7 @@ func exploreHarness(prog *ssa.Program, fn *ssa.Function, inits []*ssa.Function, 
 	engines := make([]*Engine, nw)
 	for i := range engines {
 		e := &Engine{prog: prog, solver: NewSolver(opts.SolverBin, opts.TimeoutMs), sh: sh, outcomes: map[string]int{},
-			reach: map[string]int{}, asserts: map[string]int{}, maxSteps: opts.MaxSteps, funcsSeen: map[*ssa.Function]bool{},
+			reach: map[string]int{}, asserts: map[string]int{}, maxSteps: opts.MaxSteps, agreeMax: (opts.Agree + nw - 1) / nw, funcsSeen: map[*ssa.Function]bool{},
 			verbose: opts.Verbose, harness: fn.Name(), harnessPkg: fn.Pkg, tier: opts.Tier, pin: opts.Pin, maxSwitch: opts.MaxSwitch,
 			noAbs: os.Getenv("VERIF_NOABS") != "", audit: os.Getenv("VERIF_AUDIT") != "",
 			noSlice: os.Getenv("VERIF_SLICE") == "", useModel: os.Getenv("VERIF_NOMODEL") == "", assertsToSolver: opts.Tier > 0 || os.Getenv("VERIF_ASSERTS_TO_SOLVER") != "", varMemo: map[*Term]varset{}, varIdx: map[*Term]int{}}
@@ -347,6 +369,7 @@ func exploreHarness(prog *ssa.Program, fn *ssa.Function, inits []*ssa.Function, 
 		}
 		res.Viol = append(res.Viol, e.viol...)
 		res.Samples = append(res.Samples, e.samples...)
+		res.Agree = append(res.Agree, e.agree...)
 		e.solver.Close()
 	}
 	for f := range funcs {
